@@ -54,11 +54,27 @@ func (v *Verifier) addSweeps() {
 		// every writer of the SMS login keys preserves the session invariant
 		v.coveredPred = func(key string) bool { return v.hasClause(key, "sms_binding_inv") }
 		v.addEffectSweep("sms_keys_only_under_invariant", v.Prog.smsKeySites)
+		// handlers that run between the password check and the second factor
+		v.coveredPred = func(string) bool { return false }
+		v.addEffectSweep("event_handlers_under_contract", v.eventRegSites(map[string][]string{
+			"Before": {"EventAuth", "EventAuthHijack"},
+		}, "mints_no_credential", preFactorHandlerClause))
 		v.coveredPred = nil
 	case "C17":
 		v.sweepDefault = v.defaultSecretsContract
 		v.addEffectSweep("no_uncontracted_sink", v.Prog.sinkSites)
 		v.sweepDefault = nil
+	case "C15":
+		// every function that answers with a redirect: the target's path comes from
+		// the configuration (written contract, or the default one)
+		v.coveredPred = func(key string) bool { return v.underContractFor(key) }
+		v.sweepDefault = v.defaultRedirectContract
+		v.addEffectSweep("redirect_targets_under_contract", v.Prog.redirectSites)
+		v.sweepDefault = nil
+		v.coveredPred = nil
+	case "C11":
+		// bytes reach the client only through methods whose contract puts the flush first
+		v.addEffectSweep("wrapped_writer_only_under_contract", v.Prog.underlyingUseSites)
 	case "C16":
 		// what a client observes of a login or recovery attempt depends on the handlers
 		// registered for these events: each must be under contract for C16
@@ -66,7 +82,7 @@ func (v *Verifier) addSweeps() {
 		v.addEffectSweep("event_handlers_under_contract", v.eventRegSites(map[string][]string{
 			"Before": {"EventAuth", "EventRecoverStart"},
 			"After":  {"EventAuthFail", "EventRecoverStart"},
-		}))
+		}, "unlisted_handler_transparent", defaultHandlerClause))
 		v.coveredPred = nil
 	case "C09", "C10":
 		// "whitelisted" means whitelisted by the integrator: no library function
